@@ -528,6 +528,12 @@ FIXED += [
      json.loads('{"result": "v12", "steps": [{"out": "v0", "table": "t1", "verb": "source"}, {"in": "v0", "items": [["a_t1", ["fn", "sum", [["col", {"n": "b", "v": "v0"}]], {"filter": [["fn", "is_not_null", [["col", {"c": "c"}]], {}]]}]]], "out": "v4", "verb": "summarize"}, {"in": "v4", "items": [["a", ["fn", "sum", [["col", {"n": "a_t1", "v": "v4"}]], {}]], ["x", ["fn", "count_star", [], {}]]], "out": "v6", "verb": "summarize"}, {"cols": [{"n": "a", "v": "v6"}], "in": "v6", "out": "v8", "verb": "drop"}, {"cols": [{"c": "x"}], "in": "v6", "out": "v10", "verb": "select"}, {"distinct": false, "in": "v8", "out": "v11", "right": "v10", "verb": "union"}, {"in": "v11", "items": [["q", ["fn", "count_star", [], {}]]], "out": "v12", "verb": "summarize"}], "tables": [{"cols": [["id", "int64"], ["c", "int64"], ["b", "float64"], ["x", "date"], ["d", "date"]], "name": "t1", "rows": []}]}')),
 ]
 
+FIXED += [
+    ('F74-sqlite-clip-int-float-bounds', 'C12', 'SQLite float-typed clip of an integer expression is cast to float',
+     'SQLite: clip(<Int expression>, -18.5, 273.625) (static Float) exported Int64 when the value lay between the bounds',
+     json.loads('{"result": "v6", "steps": [{"out": "v0", "table": "t0", "verb": "source"}, {"in": "v0", "items": [["a_r", ["fn", "clip", [["fn", "fill_null", [["fn", "sum", [["col", {"n": "d", "v": "v0"}]], {}], ["fn", "clip", [["fn", "count_star", [], {}], ["lit", -2], ["lit", 7]], {}]], {}], ["lit", -18.5], ["lit", 273.625]], {}]]], "out": "v6", "verb": "summarize"}], "tables": [{"cols": [["id", "int64"], ["d", "bool"], ["y", "int64"]], "name": "t0", "rows": []}], "validate": "check"}')),
+]
+
 
 def main():
     log = subprocess.run(["git", "-C", "/repo", "log", "--format=%h %s"], capture_output=True, text=True).stdout.splitlines()
